@@ -64,6 +64,7 @@ class Model:
         self.support = None  # auto cell ratio support: None (undetermined) | True | False
         self.style_support = None  # iterm2-style support once determined for good (None: not yet)
         self.kitty_support = None  # kitty-style support once determined for good
+        self.old_image = None
         self.style_term = ""  # terminal identity the iterm2 style goes by (set when it finds itself supported)
         self.env_tp = None  # inherited (TERM_PROGRAM, TERM_PROGRAM_VERSION)
         self.cached_while_disabled = False
@@ -358,10 +359,17 @@ def run_history(seed, env, res, probes, allow_subprocess=False, env_tp=None):
                 acc = m.acceptable_cell()
                 ITerm2Image.forced_support = True
                 try:
-                    im = ITerm2Image(Image.new("RGB", (2, 2)), width=2, height=1)
-                    expect_support()  # (instantiation determines support first)
+                    if m.old_image is not None and rnd.random() < 0.5:
+                        # an image made earlier in the history (under whatever settings
+                        # were in force then) is rendered now
+                        im = m.old_image
+                        res.count("renders of an image created earlier in the history")
+                    else:
+                        im = ITerm2Image(Image.new("RGB", (2, 2)), width=2, height=1)
+                        if m.old_image is None:
+                            m.old_image = im
+                    expect_support()  # (instantiation / rendering goes by the current determination)
                     out = format(im, "1.1+W")
-                    im.close()
                 finally:
                     ITerm2Image.forced_support = False
                 m.note_read(set(acc))  # (a graphics render reads the cell size: one of these is now held)
@@ -495,7 +503,8 @@ class YieldInjector:
         import term_image
         from term_image import utils
 
-        return [utils.get_fg_bg_colors.__code__, inspect.unwrap(utils.get_cell_size).__code__, self_ts_code(), term_image.enable_queries.__code__]
+        colours = getattr(utils, "_get_fg_bg_colors", utils.get_fg_bg_colors)
+        return [colours.__code__, inspect.unwrap(utils.get_cell_size).__code__, self_ts_code(), term_image.enable_queries.__code__]
 
     def cb(self, code, line):
         rnd = getattr(self.local, "rnd", None)
